@@ -349,8 +349,8 @@ func runC20L(_ *testing.T, c c20LifeCase) (out kit.Outcome) {
 	nPolls := func() int { mu.Lock(); defer mu.Unlock(); return len(polls) }
 	b.reg.RegisterGauge("g0", supplier)
 	gauges := 1
-	running := false     // model: between a Start and the next returned Stop
-	var intervalStart int64 // stamp taken right before the Start that opened the current interval
+	running := false                   // model: between a Start and the next returned Stop
+	var intervalStart int64            // stamp taken right before the Start that opened the current interval
 	var quietFrom int64 = clock.Add(1) // polls stamped after this (and before the next Start) are illegal
 	var sawDoubleStart, sawStop, sawPauseAfterStop bool
 
@@ -495,7 +495,7 @@ func TestC20_registry_gauges(t *testing.T) {
 	}
 	type gc struct {
 		Backend, Prefix, ID string
-		Value              float64
+		Value               float64
 	}
 	d := kit.NewDirect[gc](t, "C20", "enumerated: backend x prefix x gauge id (with/without leading dot) x value; after Start the backend must show a gauge prefix+ID with the supplier's value")
 	for _, backend := range []string{"gometrics", "datadog"} {
